@@ -2,7 +2,9 @@ package c20
 
 import (
 	"fmt"
+	"hash/fnv"
 	"os"
+	"os/exec"
 	"runtime"
 	"runtime/debug"
 	"sort"
@@ -21,7 +23,67 @@ func TestMain(m *testing.M) { ev.Main(m, "C20") }
 var numFrags = []string{"0", "1", "9", "12", "007", "123456789", "18446744073709551615", "9223372036854775807", "9223372036854775808", ".", ".5", "e", "E", "e+", "e-", "e308", "e-324", "+", "-", ",", "px", "%", "em", " ", "x", "1e5", "0.1", "1,000", "99999999999999999999", "inf", "NaN"}
 var uriFrags = []string{"data:", "text/plain", "text/html", "image/svg+xml", ";", ";base64", ";charset=utf-8", "charset=", "=", ",", "%41", "%", "%4", "%zz", "aGVsbG8=", "aGVsbG8", "hello world", " ", "a/b", "?q=1&r=2", "#frag", "é", "\"q\"", "\\", "'", "\x00", "+", "/", ":"}
 
+// bigInput: an input of 8-40 KB (above the sizes at which buffers are recycled, pooled or given up: 4096 and its multiples)
+func bigInput(t *rapid.T, lang string) []byte {
+	n := rapid.SampledFrom([]int{800, 1200, 2500}).Draw(t, "bign")
+	var sb strings.Builder
+	switch lang {
+	case "js":
+		if rapid.Bool().Draw(t, "bigstmt") {
+			sb.WriteString("table=[") // one expression statement of many kilobytes
+			for i := 0; i < n; i++ {
+				fmt.Fprintf(&sb, "%d,", i)
+			}
+			sb.WriteString("0];a=1")
+		} else {
+			for i := 0; i < n; i++ {
+				fmt.Fprintf(&sb, "v%d = f(%d);\n", i, i)
+			}
+		}
+	case "css":
+		for i := 0; i < n/4; i++ {
+			fmt.Fprintf(&sb, ".c%d{margin:%dpx %dpx;color:#%03x}\n", i, i, i+1, i%4096)
+		}
+	case "html":
+		sb.WriteString("<div class=\"")
+		for i := 0; i < n; i++ {
+			fmt.Fprintf(&sb, "c%d ", i)
+		}
+		sb.WriteString("\">")
+		for i := 0; i < n/4; i++ {
+			fmt.Fprintf(&sb, "<p id=p%d>text %d</p>", i, i)
+		}
+		sb.WriteString("</div>")
+	case "json":
+		sb.WriteString("[")
+		for i := 0; i < n; i++ {
+			fmt.Fprintf(&sb, "{\"k%d\":%d},", i, i)
+		}
+		sb.WriteString("null]")
+	case "xml":
+		sb.WriteString("<r>")
+		for i := 0; i < n/2; i++ {
+			fmt.Fprintf(&sb, "<e a=\"%d\">t%d</e>", i, i)
+		}
+		sb.WriteString("</r>")
+	default:
+		for i := 0; i < n; i++ {
+			fmt.Fprintf(&sb, "word%d ", i)
+		}
+	}
+	return []byte(sb.String())
+}
+
+// one in bigOdds inputs is a big one (set per sub-check: big inputs are slow under the race detector)
+var bigOdds = 60
+
 func genInput(t *rapid.T, lang string) []byte {
+	if lang != "num" && lang != "uri" && rapid.IntRange(0, bigOdds-1).Draw(t, "big") == 0 {
+		if lang == "any" {
+			lang = rapid.SampledFrom([]string{"css", "html", "js", "json", "xml", "words"}).Draw(t, "anylang")
+		}
+		return bigInput(t, lang)
+	}
 	switch lang {
 	case "any":
 		lang = rapid.SampledFrom([]string{"css", "html", "js", "json", "xml", "num", "uri"}).Draw(t, "anylang")
@@ -49,7 +111,18 @@ type call struct {
 }
 
 func (c call) String() string {
-	return fmt.Sprintf("%s(%q, %v)", entries[c.e].name, c.in, c.prog)
+	return fmt.Sprintf("%s(%s, %v)", entries[c.e].name, short(c.in), c.prog)
+}
+
+// short quotes an input; long ones are cut to their first bytes plus length and hash (they are built by bigInput from
+// two drawn numbers and can be rebuilt from the replay file)
+func short(in []byte) string {
+	if len(in) <= 300 {
+		return fmt.Sprintf("%q", in)
+	}
+	h := fnv.New64a()
+	h.Write(in)
+	return fmt.Sprintf("%q…(%d bytes, fnv %x)", in[:120], len(in), h.Sum64())
 }
 
 func genCall(t *rapid.T, allowed []int) call {
@@ -266,7 +339,7 @@ func TestProp_Interleaved(t *testing.T) {
 			}
 			x := &inst{mk: k, in: genInput(t, makers[k].lang), prog: rapid.SliceOfN(rapid.Byte(), 0, 30).Draw(t, "prog")}
 			insts[i] = x
-			fmt.Fprintf(&key, "%s(%q,%v);", makers[k].name, x.in, x.prog)
+			fmt.Fprintf(&key, "%s(%s,%v);", makers[k].name, short(x.in), x.prog)
 		}
 		const maxSteps = 20000
 		for _, x := range insts {
@@ -301,7 +374,7 @@ func TestProp_Interleaved(t *testing.T) {
 			for b := 0; b < burst && pos[i] < len(insts[i].alone); b++ {
 				out, _ := live[i]()
 				if want := insts[i].alone[pos[i]]; out != want {
-					t.Fatalf("instance %d (%s on %q) step %d:\nalone:       %s\ninterleaved: %s\nschedule so far %v, instances: %s", i, makers[insts[i].mk].name, insts[i].in, pos[i], want, out, sched, key.String())
+					t.Fatalf("instance %d (%s on %.300q) step %d:\nalone:       %s\ninterleaved: %s\nschedule so far %v, instances: %s", i, makers[insts[i].mk].name, insts[i].in, pos[i], want, out, sched, key.String())
 				}
 				pos[i]++
 				if len(sched) < 200 {
@@ -354,7 +427,9 @@ var (
 var probeLangs = []string{"css", "html", "js", "json", "xml"}
 
 func TestProp_HistoryProbe(t *testing.T) {
-	ev.Describe("history", "case = 2-8 poison calls (entry points of one package on generated inputs: mutated and truncated repository literals, so that the call often ends on an error path in the middle of a construct) followed by probe calls of the same package (every literal of the package's repository tests, up to 3000, through a drawn lexer/parser entry point); every probe's digest must equal the first digest that the same call produced in this process (computed before the poison calls if it was never run); garbage collection is paused during a case and the sub-check also runs in shards built without -race, because sync.Pool drops parked objects at every collection and at random under -race; non-trivial = every case (each one compares several hundred probes behind the poison calls)")
+	ev.Describe("history", "case = 2-8 poison calls (entry points of one package on generated inputs: mutated and truncated repository literals, so that the call often ends on an error path in the middle of a construct) followed by probe calls of the same package (every literal of the package's repository tests, up to 3000, and every hostile fragment of the language alone and in three small contexts, through a drawn lexer/parser entry point); every probe's digest must equal the first digest that the same call produced in this process (computed before the poison calls if it was never run); garbage collection is paused during a case and the sub-check also runs in shards built without -race, because sync.Pool drops parked objects at every collection and at random under -race; non-trivial = every case (each one compares several hundred probes behind the poison calls)")
+	bigOdds = 10
+	defer func() { bigOdds = 60 }()
 	byLang := map[string][]int{}
 	for i, e := range entries {
 		for _, l := range probeLangs {
@@ -400,6 +475,15 @@ func TestProp_HistoryProbe(t *testing.T) {
 			probes = append(probes, c)
 			keys = append(keys, fmt.Sprintf("%d/%d/%s", pe, prog[0], c.in))
 		}
+		// and every hostile fragment of the language alone, behind a name and in front of an assignment (a probe for state
+		// that is keyed by a single character or token)
+		for _, f := range gen.Frags[lang] {
+			for _, in := range []string{f, "a" + f, f + "=1", f + " " + f} {
+				c := call{e: pe, in: []byte(in), prog: prog}
+				probes = append(probes, c)
+				keys = append(keys, fmt.Sprintf("%d/%d/%s", pe, prog[0], c.in))
+			}
+		}
 		// objects parked in a sync.Pool are dropped by the garbage collector: no collection between the poison and the probes
 		defer debug.SetGCPercent(debug.SetGCPercent(-1))
 		fresh := 0
@@ -426,7 +510,120 @@ func TestProp_HistoryProbe(t *testing.T) {
 		}
 		fmt.Fprintf(&key, "probes %s %d+%d*i x%d", entries[pe].name, start, stride, k)
 		ev.Case("history", key.String(), true, "lang-"+lang, "probe "+entries[pe].name)
-		ev.Count("history", "probe calls", int64(k))
+		ev.Count("history", "probe calls", int64(len(probes)))
 		ev.Count("history", "probes first evaluated in the case", int64(fresh))
+	})
+}
+
+// ---------- against a fresh process: state that is filled on first use and then stays (a memo table) gives the same answer
+// for the rest of the process, whatever the order afterwards; it shows when another process meets the inputs in another order
+
+func probeList(lang string) []string {
+	var out []string
+	for _, f := range gen.Frags[lang] {
+		out = append(out, f, "a"+f, f+"=1", f+" "+f)
+	}
+	c := gen.Corpus(lang)
+	if len(c) > 1500 {
+		c = c[:1500]
+	}
+	return append(out, c...)
+}
+
+func probeOrder(n int, mode string, seed int) []int {
+	idx := make([]int, n)
+	for i := range idx {
+		idx[i] = i
+	}
+	switch mode {
+	case "reverse":
+		for i, j := 0, n-1; i < j; i, j = i+1, j-1 {
+			idx[i], idx[j] = idx[j], idx[i]
+		}
+	case "stride":
+		// a permutation by a stride coprime to n
+		step := seed*2 + 1
+		for gcd(step, n) != 1 {
+			step += 2
+		}
+		for i := range idx {
+			idx[i] = (i * step) % n
+		}
+	}
+	return idx
+}
+
+func gcd(a, b int) int {
+	for b != 0 {
+		a, b = b, a%b
+	}
+	return a
+}
+
+// TestChildProbes is the body of the child process: it evaluates the probe list in the requested order and prints one
+// digest per probe. It does nothing unless VERIF_C20_CHILD is set.
+func TestChildProbes(t *testing.T) {
+	spec := os.Getenv("VERIF_C20_CHILD")
+	if spec == "" {
+		t.Skip("child-process helper")
+	}
+	var lang, mode string
+	var pe, opt, seed int
+	if _, err := fmt.Sscanf(spec, "%s %d %d %s %d", &lang, &pe, &opt, &mode, &seed); err != nil {
+		t.Fatalf("bad spec %q: %v", spec, err)
+	}
+	probes := probeList(lang)
+	res := make([]string, len(probes))
+	for _, i := range probeOrder(len(probes), mode, seed) {
+		res[i] = run(call{e: pe, in: []byte(probes[i]), prog: []byte{byte(opt)}})
+	}
+	for i, r := range res {
+		fmt.Printf("PROBE %d %s\n", i, r[:16])
+	}
+}
+
+func TestProp_FreshProcess(t *testing.T) {
+	ev.Describe("fresh", "for a drawn language, lexer/parser entry point and option byte: the digests of every probe (each hostile fragment alone and in three contexts, every literal of the package's tests) computed in this process in list order must equal those computed by a fresh child process that meets the same probes in reverse or in a strided order; non-trivial = every case")
+	ev.Assume("the child process is the same test binary (os.Args[0]) started with VERIF_C20_CHILD; it reads the same repository literals")
+	byLang := map[string][]int{}
+	for i, e := range entries {
+		for _, l := range probeLangs {
+			if e.lang == l {
+				byLang[l] = append(byLang[l], i)
+			}
+		}
+	}
+	ev.Check(t, 3, func(t *rapid.T) {
+		lang := rapid.SampledFrom(probeLangs).Draw(t, "lang")
+		pe := rapid.SampledFrom(byLang[lang]).Draw(t, "probe-entry")
+		opt := rapid.IntRange(0, 3).Draw(t, "options")
+		mode := rapid.SampledFrom([]string{"reverse", "stride"}).Draw(t, "order")
+		seed := rapid.IntRange(1, 50).Draw(t, "stride")
+		probes := probeList(lang)
+		cmd := exec.Command(os.Args[0], "-test.run", "^TestChildProbes$", "-test.v")
+		cmd.Env = append(os.Environ(), fmt.Sprintf("VERIF_C20_CHILD=%s %d %d %s %d", lang, pe, opt, mode, seed), "VERIF_EV_OUT=")
+		out, err := cmd.Output()
+		if err != nil {
+			t.Fatalf("VERIF-INFRA child process failed: %v\n%.2000s", err, out)
+		}
+		child := map[int]string{}
+		for _, line := range strings.Split(string(out), "\n") {
+			var i int
+			var h string
+			if n, _ := fmt.Sscanf(line, "PROBE %d %s", &i, &h); n == 2 {
+				child[i] = h
+			}
+		}
+		if len(child) != len(probes) {
+			t.Fatalf("VERIF-INFRA child reported %d of %d probes\n%.2000s", len(child), len(probes), out)
+		}
+		for i, p := range probes {
+			r := run(call{e: pe, in: []byte(p), prog: []byte{byte(opt)}})
+			if r[:16] != child[i] {
+				t.Fatalf("%s(%q, option %d): this process (probes in list order) gets %s, a fresh process that meets the probes in %s order gets digest %s", entries[pe].name, p, opt, r, mode, child[i])
+			}
+		}
+		ev.Case("fresh", fmt.Sprintf("%s|%s|%d|%s|%d", lang, entries[pe].name, opt, mode, seed), true, "lang-"+lang, "order-"+mode)
+		ev.Count("fresh", "probes compared", int64(len(probes)))
 	})
 }
